@@ -351,7 +351,12 @@ pub(crate) fn compute_contract_weights(
                     return Err(ContractError::Unauthorized);
                 }
                 Ok((earliest_epoch_id, weight)) => {
-                    // some weight was recorded for the contract in the past, start from there
+                    // some weight was recorded for the contract in the past, start from there.
+                    // If the earliest weight is not in the past but within the claimed range,
+                    // that epoch needs its weight too
+                    if earliest_epoch_id >= *start_from_epoch {
+                        contract_weights.insert(earliest_epoch_id, weight);
+                    }
                     (earliest_epoch_id, weight)
                 }
             }
